@@ -446,7 +446,7 @@ func mutate(r *rand.Rand, doc *generator.Doc, cfg *generator.Config, kind int) s
 		return out
 	}
 	if kind < 0 {
-		kind = r.Intn(13)
+		kind = r.Intn(14)
 	}
 	switch kind {
 	case 0: // remove a member
@@ -571,6 +571,31 @@ func mutate(r *rand.Rand, doc *generator.Doc, cfg *generator.Config, kind int) s
 		at := r.Intn(len(doc.Fields) + 1)
 		doc.Fields = append(doc.Fields[:at:at], append([]*generator.Field{&dup}, doc.Fields[at:]...)...)
 		return "repeat the definition of field " + f.Name
+	case 12: // a session-flow message loses one of its flow fields (generator/required.go) as a member
+		flow := map[string][]string{"Logon": {"HeartBtInt", "EncryptMethod"}, "Heartbeat": {"TestReqID"}, "TestRequest": {"TestReqID"},
+			"ResendRequest": {"BeginSeqNo", "EndSeqNo"}, "SequenceReset": {"NewSeqNo", "GapFillFlag"}, "Reject": {"RefSeqNum"}}
+		var names []string
+		for _, m := range doc.Messages {
+			if _, ok := flow[m.Name]; ok {
+				names = append(names, m.Name)
+			}
+		}
+		if len(names) > 0 {
+			sort.Strings(names)
+			name := names[r.Intn(len(names))]
+			want := flow[name][r.Intn(len(flow[name]))]
+			for _, m := range doc.Messages {
+				if m.Name != name {
+					continue
+				}
+				for i, mem := range m.Members {
+					if mem.Name == want {
+						m.Members = append(m.Members[:i:i], m.Members[i+1:]...)
+						return "remove member of " + name + " (flow member " + want + ")"
+					}
+				}
+			}
+		}
 	default:
 		return "noop"
 	}
@@ -939,13 +964,16 @@ func main() {
 		var descs []string
 		// the first mutation cycles through every kind (so that every run, however short, covers them all);
 		// further ones are random
-		descs = append(descs, mutate(r, base, bcfg, i%12))
-		for k := 0; k < r.Intn(3); k++ {
+		descs = append(descs, mutate(r, base, bcfg, i%13))
+		for k := 0; k < r.Intn(3) && i%13 != 12; k++ { // the flow-member case stays alone: nothing else may get it rejected
 			descs = append(descs, mutate(r, base, bcfg, -1))
 		}
 		c := compiled < *build-2
 		if c {
 			compiled++
+		}
+		if strings.Contains(strings.Join(descs, "; "), "(flow member ") {
+			c = true // always compiled: what the generator accepts must build (known finding F-C12-flowmembers)
 		}
 		one(o, tmp, 10+i, strings.Join(descs, "; "), base, bcfg, c)
 		o.Count("C12.mutants")
